@@ -256,3 +256,64 @@ def _contains(root, node):
 def source_order(fi, nodes):
     """nodes sorted by position in the function (line, col)"""
     return sorted(nodes, key=lambda n: (n.lineno, n.col_offset))
+
+
+def enclosing_iterations(node, stop_at):
+    """loops that repeat ``node``, innermost first, as (iterable expr, target) pairs: a for statement whose body holds the
+    node, or the comprehension generators that are evaluated per element around it (a call inside the iterable of
+    generator k is repeated by generators 0..k-1 only)"""
+    out = []
+    prev = node
+    for p in parents(node):
+        if p is stop_at:
+            break
+        if isinstance(p, (ast.For, ast.AsyncFor)):
+            if any(prev is x for x in p.body) or any(prev is x for x in p.orelse):
+                out.append((p.iter, p.target))
+        elif isinstance(p, ast.While):
+            if any(prev is x for x in p.body):
+                out.append((None, None))
+        elif isinstance(p, (ast.ListComp, ast.SetComp, ast.DictComp, ast.GeneratorExp)):
+            gens = p.generators
+            if isinstance(prev, ast.comprehension):
+                k = next(i for i, g in enumerate(gens) if g is prev)
+                inside_iter = _contains(prev.iter, node)
+                upto = k if inside_iter else k + 1
+            else:
+                upto = len(gens)
+            for g in reversed(gens[:upto]):
+                out.append((g.iter, g.target))
+        prev = p
+    return out
+
+
+ACCESS_PATH = (ast.Name, ast.Attribute, ast.Subscript, ast.Constant, ast.Slice, ast.Tuple, ast.UnaryOp)
+
+
+def is_access_path(e):
+    """a plain reference: names, attributes and constant subscripts only (no calls, no arithmetic)"""
+    return all(isinstance(n, ACCESS_PATH + (ast.Load, ast.USub)) for n in ast.walk(e))
+
+
+def wired(flow, expr, wants):
+    """is ``expr`` (after replacing locals by their reaching definitions) one of the wanted reference texts?
+    -> ('equal'|'different'|'unknown', expanded text).  'different' only when the expression is a plain reference to
+    something else; anything computed is 'unknown' (the caller reports it as undecided, never as a violation)."""
+    if expr is None:
+        return "different", None
+    wants = [wants] if isinstance(wants, str) else list(wants)
+    e = flow.expand(expr)
+    t = norm(e).replace('"', "'")
+    if t in [w.replace('"', "'") for w in wants] or norm(expr).replace('"', "'") in wants:
+        return "equal", t
+    if is_access_path(e):
+        return "different", t
+    return "unknown", t
+
+
+def require_wired(chk, flow, expr, wants, rule, where, ok_text, bad_text, key, sample=None):
+    """three-way obligation on a wiring: holds / violated (a plain reference to something else) / undecided"""
+    verdict, t = wired(flow, expr, wants)
+    if verdict == "unknown":
+        raise AnalysisError(f"{where}: {ok_text}: found `{t}`, which is computed rather than referenced; not decided")
+    return chk.require(verdict == "equal", rule, where, ok_text, f"{bad_text} (found `{t}`)", key=key, sample=sample)
